@@ -48,18 +48,15 @@ pub(crate) fn parse_directive(jsx_attr: &JSXAttr, is_component: bool) -> Directi
                 .trim_start_matches('-')
                 .split('_');
             (
-                splitted.next().unwrap_or(&*ident.sym).to_ascii_lowercase(),
-                splitted.next(),
+                lowercase_first_letter(splitted.next().unwrap_or(&*ident.sym)),
+                None,
                 splitted,
             )
         }
         JSXAttrName::JSXNamespacedName(JSXNamespacedName { ns, name, .. }) => {
             let mut splitted = name.sym.split('_');
             (
-                ns.sym
-                    .trim_start_matches('v')
-                    .trim_start_matches('-')
-                    .to_ascii_lowercase(),
+                lowercase_first_letter(ns.sym.trim_start_matches('v').trim_start_matches('-')),
                 Some(splitted.next().unwrap_or(&*name.sym)),
                 splitted,
             )
@@ -143,6 +140,20 @@ pub(crate) fn parse_directive(jsx_attr: &JSXAttr, is_component: bool) -> Directi
     })
 }
 
+/// `vMyDir` names the directive `myDir`: only the first letter is lower-cased.
+fn lowercase_first_letter(name: &str) -> String {
+    let mut chars = name.chars();
+    match chars.next() {
+        Some(first) => {
+            let mut lowered = String::with_capacity(name.len());
+            lowered.push(first.to_ascii_lowercase());
+            lowered.push_str(chars.as_str());
+            lowered
+        }
+        None => String::new(),
+    }
+}
+
 fn parse_modifiers(exprs: &[Option<ExprOrSpread>]) -> BTreeSet<Atom> {
     exprs
         .iter()
@@ -171,7 +182,7 @@ fn parse_v_text_directive(jsx_attr: &JSXAttr) -> Directive {
                 (**expr).clone()
             }
         }
-        None => {
+        _ => {
             HANDLER.with(|handler| {
                 handler.span_err(
                     jsx_attr.span,
@@ -183,7 +194,6 @@ fn parse_v_text_directive(jsx_attr: &JSXAttr) -> Directive {
                 value: true,
             }))
         }
-        _ => unreachable!(),
     };
 
     Directive::Text(expr)
@@ -204,7 +214,7 @@ fn parse_v_html_directive(jsx_attr: &JSXAttr) -> Directive {
                 (**expr).clone()
             }
         }
-        None => {
+        _ => {
             HANDLER.with(|handler| {
                 handler.span_err(
                     jsx_attr.span,
@@ -216,7 +226,6 @@ fn parse_v_html_directive(jsx_attr: &JSXAttr) -> Directive {
                 value: true,
             }))
         }
-        _ => unreachable!(),
     };
 
     Directive::Html(expr)
@@ -319,7 +328,7 @@ fn transform_modifiers(modifiers: BTreeSet<Atom>, quote_prop: bool) -> Option<Ex
                 .into_iter()
                 .map(|modifier| {
                     PropOrSpread::Prop(Box::new(Prop::KeyValue(KeyValueProp {
-                        key: if quote_prop {
+                        key: if quote_prop || !is_identifier_name(&modifier) {
                             PropName::Str(quote_str!(modifier))
                         } else {
                             PropName::Ident(quote_ident!(modifier))
@@ -333,6 +342,12 @@ fn transform_modifiers(modifiers: BTreeSet<Atom>, quote_prop: bool) -> Option<Ex
                 .collect(),
         }))
     }
+}
+
+/// Whether `text` can be written as an unquoted object key.
+fn is_identifier_name(text: &str) -> bool {
+    let mut chars = text.chars();
+    chars.next().map(Ident::is_valid_start).unwrap_or_default() && chars.all(Ident::is_valid_continue)
 }
 
 fn parse_v_slots_directive(jsx_attr: &JSXAttr) -> Directive {
